@@ -32,6 +32,7 @@ type Contract struct {
 	Requires  []Clause
 	Ensures   []Clause
 	PanicsIff *Clause
+	PanicsIf  []Clause // one direction: condition implies panic (the function may also panic otherwise)
 	MayPanic  bool
 	Modifies  []CExpr
 	ModAll    bool
@@ -44,6 +45,11 @@ type Contract struct {
 	Lets      []LetDef
 	// call-site assertions: "assert call <callee-substring> : expr"
 	CallAsserts []CallAssert
+}
+
+type Def struct {
+	Params []string
+	Body   CExpr
 }
 
 type LetDef struct {
@@ -81,14 +87,15 @@ type ContractSet struct {
 	Lemmas  []*Lemma
 	Errors  []string
 	specLike bool
+	Defs    map[string]*Def
 	Pure    map[string]bool // trusted side-effect-free dependency functions (result unknown)
 }
 
 func NewContractSet() *ContractSet {
-	return &ContractSet{Funcs: map[string]*Contract{}, Globals: map[string][]*GlobalSpec{}, Pure: map[string]bool{}}
+	return &ContractSet{Funcs: map[string]*Contract{}, Globals: map[string][]*GlobalSpec{}, Pure: map[string]bool{}, Defs: map[string]*Def{}}
 }
 
-var keywords = map[string]bool{"func": true, "global": true, "requires": true, "ensures": true, "panics_iff": true,
+var keywords = map[string]bool{"func": true, "global": true, "requires": true, "ensures": true, "panics_iff": true, "panics_if": true, "define": true,
 	"may_panic": true, "modifies": true, "loop": true, "props": true, "trusted": true, "inline": true, "let": true,
 	"lemma": true, "pure": true, "package": true, "var": true, "hyp": true, "concl": true, "assert": true, "end": true}
 
@@ -97,7 +104,7 @@ var funcHdr = regexp.MustCompile(`^func\s+(\([^)]*\)\.)?([A-Za-z0-9_$\[\],./\-]+
 // qualify turns a contract-file target into the ssa.Function.String() form.
 func qualify(pkg, recv, name string) string {
 	if recv == "" {
-		if strings.Contains(name, ".") || pkg == "" {
+		if strings.Contains(name, "/") || pkg == "" {
 			return name
 		}
 		return pkg + "." + name
@@ -217,6 +224,17 @@ func (cs *ContractSet) ParseContractText(file, pkg, text string, trusted bool) {
 		case "package":
 			cur, curLemma = nil, nil
 			pkg = strings.TrimSpace(rest)
+		case "define":
+			cur, curLemma = nil, nil
+			// define name(a, b, c) := expr
+			i := strings.Index(rest, ":=")
+			j := strings.Index(rest, "(")
+			k := strings.Index(rest, ")")
+			if i < 0 || j < 0 || k < 0 || k > i {
+				errf(rl.n, "bad define")
+				continue
+			}
+			cs.Defs[strings.TrimSpace(rest[:j])] = &Def{Params: splitNames(rest[j+1 : k]), Body: parse(rl.n, rest[i+2:])}
 		case "pure":
 			cur, curLemma = nil, nil
 			cs.Pure[strings.TrimSpace(rest)] = true
@@ -272,6 +290,9 @@ func (cs *ContractSet) ParseContractText(file, pkg, text string, trusted bool) {
 				cur.Ensures = append(cur.Ensures, Clause{E: parse(rl.n, rest), Src: rest})
 			case "panics_iff":
 				cur.PanicsIff = &Clause{E: parse(rl.n, rest), Src: rest}
+			case "panics_if":
+				cur.PanicsIf = append(cur.PanicsIf, Clause{E: parse(rl.n, rest), Src: rest})
+				cur.MayPanic = true
 			case "may_panic":
 				cur.MayPanic = true
 			case "trusted":
